@@ -108,7 +108,7 @@ class Body:
 
 def callee_name(t):
     """Best (most resolved) callee name of a call terminator, or None for indirect calls."""
-    return t.get("resolved") or t.get("callee")
+    return t.get("resolved") or t.get("callee") or "<indirect>"
 
 
 class Program:
